@@ -304,7 +304,7 @@ fn c10z_fixtures_are_wellformed() {
     assert!(jail.is_parent_of(&x));
     assert!(!jail.is_parent_of(&o));
     assert!(!jail.is_parent_of(&jail));
-    assert!(base64_of(3).as_str() == "D");
+    assert!(base64_of(3).as_str() == "AAAD");
     kani::cover!(jail.is_parent_of(&x));
     std::mem::forget((jail, x, o));
 }
@@ -369,7 +369,7 @@ pub(crate) fn current_a<const WITH_Y: bool>(cx: u8, cy: u8) -> CurrentObjects {
 
 pub(crate) fn holds(objs: &CurrentObjects, which: u8, c: u8) -> bool {
     match objs.0.get(&CurrentObjectUri::from(&uri_pick(which))) {
-        Some(b) => b.as_str().as_bytes()[0] == b'A' + c,
+        Some(b) => crate::verif_fix::letter_of(b) == b'A' + c,
         None => false,
     }
 }
@@ -633,7 +633,7 @@ fn merge_case<const S: u8, const D: u8>() {
     };
     staged.merge_new_elements(new);
     let merged = staged.0.get(&uri_pick(w));
-    let letter = |b: &Base64| b.as_str().as_bytes()[0];
+    let letter = |b: &Base64| crate::verif_fix::letter_of(b);
     match (S, D) {
         // publish y then update y: still a publish (y is not in the snapshot), newest content
         (1, 1) => match merged {
